@@ -109,8 +109,16 @@ func main() {
 				im.reset(pendingLabel)
 				marked = true
 			}
+			if runAborted {
+				return "skipped" // (never emitted: the run stops at the end of this case)
+			}
 			obs := im.exec(op)
 			o.emit(op, obs)
+			if obs == "hang" {
+				// a call that never returned may hold locks of the library: what would follow in this process is not about
+				// the input any more.  The hang is recorded; the run ends here (the check shrinks and replays it alone).
+				runAborted = true
+			}
 			return obs
 		}
 		_ = f.gen(r, *tier, i, o, func(op string) string {
@@ -120,6 +128,12 @@ func main() {
 			}
 			return do(op)
 		})
+		if runAborted {
+			break
+		}
 	}
 	o.close(nil)
 }
+
+// runAborted: set after an operation was observed to hang (see above)
+var runAborted bool
